@@ -14,6 +14,19 @@ def build():
     return rdd2.derive_strapdown_ins_propagation()["strapdown_ins_propagate"]
 
 
+def build_mrp():
+    """the same mixed-invariant propagation through the group method exp_mixed of SE23Mrp (the property names the
+    SE_2(3) group method, not only the quaternion instance shipped in rdd2.py)"""
+    import cyecca.lie as lie
+    dt = ca.SX.sym("dt"); X0 = lie.SE23Mrp.elem(ca.SX.sym("X0", 9)); a_b = ca.SX.sym("a_b", 3); g = ca.SX.sym("g")
+    omega_b = ca.SX.sym("omega_b", 3)
+    l = lie.se23.elem(ca.vertcat(0, 0, 0, a_b, omega_b))
+    r = lie.se23.elem(ca.vertcat(0, 0, 0, 0, 0, -g, 0, 0, 0))
+    B = ca.sparsify(ca.SX([[0, 1], [0, 0]]))
+    X1 = lie.SE23Mrp.exp_mixed(X0, l * dt, r * dt, B * dt)
+    return ca.Function("strapdown_mrp", [X0.param, a_b, omega_b, g, dt], [X1.param, ca.densify(X1.R.to_Matrix())])
+
+
 def pval(P, mu):
     c = np.array(P["c"], float)
     return (c[0] + mu * c[1] + mu * mu * c[2]) / P["d"]
@@ -21,6 +34,9 @@ def pval(P, mu):
 
 def state_vec(s, mu, vscale=1.0):
     return np.concatenate([pval(s["p"], mu), pval(s["v"], mu) * vscale, so3_param("quat", s["q"])])
+
+
+_FM = {}
 
 
 def replay(run, f, tv):
@@ -46,6 +62,18 @@ def replay(run, f, tv):
     # (1) the step itself, dt = T
     x1 = f(x0, a, phi, g, T)
     check(x1, "dt=T")
+    # (1b) the same step through SE23Mrp.exp_mixed (MRP attitude; skipped when the pre-attitude has no MRP)
+    qp = tv["pre"]["q"]; qn = tv["post"]["q"]
+    mrp_singular = lambda q: q[1] == 0 and q[2] == 0 and q[3] == 0 and q[0] < 0     # 360-degree MRP singularity (inherent)
+    if not (mrp_singular(qp) or mrp_singular(qn)):
+        if "f" not in _FM:
+            _FM["f"] = build_mrp()
+        x0m = np.concatenate([x0[:6], so3_param("mrp", qp)])
+        xm, Rm = _FM["f"](x0m, a, phi, g, T)
+        xm = np.array(xm).flatten()
+        cmp.vec(f"exp_mixed_mrp/position/{cell}", "SE23Mrp.exp_mixed: position is not the exact flow", xm[:3], want_p, tv)
+        cmp.vec(f"exp_mixed_mrp/velocity/{cell}", "SE23Mrp.exp_mixed: velocity is not the exact flow", xm[3:6], want_v, tv)
+        cmp.vec(f"exp_mixed_mrp/attitude/{cell}", "SE23Mrp.exp_mixed: attitude is not R0 exp(w dt)", np.array(Rm), R1, tv)
     # (2) time scaling: any dt gives the same flow (dt = T/100: rates x100, accelerations x1e4)
     k = 100.0
     x0s = state_vec(tv["pre"], mu, vscale=k)
